@@ -96,6 +96,9 @@ class Gen(object):
                 return [['scan', ['count'], rng.choice([0, 5]), r, None]], INT
             if k == 'last':
                 # in reduce mode an empty lifetime emits the seed None: the output is not of the item type
+                if ty == BOOL and rng.random() < 0.5:
+                    # a bool seed: the state is kept in a typed array and read back as a bool
+                    return [['scan', ['last'], rng.choice([False, True]), r, None]], BOOL
                 return [['scan', ['last'], None, r, None]], (ANY if r else ty)
             # a mutating accumulator: only in reduce mode (or frozen right away) so that aliasing of the
             # emitted list cannot be observed downstream
